@@ -28,10 +28,12 @@ func labelDec(in []byte) (rec map[string]any, l *rfc1035label.Labels) {
 			l = nil
 		}
 	}()
-	l, err := rfc1035label.FromBytes(append([]byte(nil), in...))
+	buf := append([]byte(nil), in...)
+	l, err := rfc1035label.FromBytes(buf)
 	if err != nil {
 		return rec, nil
 	}
+	reuse(buf) // the caller's buffer is used again: names and re-encoding are read after that
 	return map[string]any{"ok": true, "names": namesJSON(l.Labels), "reenc": B(l.ToBytes())}, l
 }
 
